@@ -46,8 +46,10 @@ MUTANTS = [
     ("C03", "processor/trigger_handler.py", "                actions += trigger.actions\n", "                actions = trigger.actions\n"),
     ("C17", "processor/context/metric_action.py", "        if self.__has_metric_processor():\n            return super().can_trigger()\n        return False", "        return super().can_trigger()"),
 ]
-if len(sys.argv) > 1:
-    MUTANTS = [m for m in MUTANTS if m[0] in sys.argv[1:]]
+FULL = "--full" in sys.argv          # run the whole quick check of the mutant's property: is a concrete failing input found too?
+sel = [a for a in sys.argv[1:] if a != "--full"]
+if sel:
+    MUTANTS = [m for m in MUTANTS if m[0] in sel]
 ALL = ["C02", "C03", "C04", "C05", "C10", "C11", "C12", "C13", "C14", "C15", "C17", "C18", "C19"]
 
 
@@ -70,6 +72,17 @@ def main():
             bad += 1
             continue
         open(full, "w").write(src.replace(old, new))
+        if FULL:
+            try:
+                out = subprocess.run(["/venv/bin/python", "/verif/harness/check.py", cid, "--tier", "quick"], cwd="/verif", text=True,
+                                     stdout=subprocess.PIPE, stderr=subprocess.STDOUT, env=dict(os.environ, PYTHONPATH="/repo/src", PYTHONHASHSEED="0")).stdout
+            finally:
+                subprocess.run(["git", "-C", "/repo", "checkout", "--", "."])
+            lines = [l for l in out.splitlines() if l.startswith("VIOLATION")]
+            concrete = [l for l in lines if "no-failing-input-found" not in l]
+            print("%-8s %-4s %-45s %d violation line(s)%s" % ("input" if concrete else ("proof-only" if lines else "MISSED"), cid, repr(new.strip()[:45]),
+                                                          len(lines), "" if concrete else "  <<<"))
+            continue
         try:
             v = verdicts()
         finally:
@@ -78,6 +91,8 @@ def main():
         ok = cid in broken
         bad += not ok
         print("%s %-4s %-45s broke %s" % ("caught" if ok else "MISSED", cid, repr(new.strip()[:45]), broken))
+    if FULL:
+        return
     v = verdicts()
     print("restored tree:", v)
     sys.exit(1 if bad or not all(v.values()) else 0)
